@@ -25,14 +25,22 @@ def program_script(c, plan, rnd, vectors=8, inst=0):
     return '\n'.join(lines) + '\n', steps
 
 
+OPT_ROTATION = [[], ['-p'], [], ['-m'], ['-p', '-g'], [], ['-f', '3'], ['-p', '-m']]
+
+
+def opts_for(k):
+    """Translator options used for module #k in the differential checks: semantics must not depend on them."""
+    return OPT_ROTATION[k % len(OPT_ROTATION)]
+
+
 class ProgResult:
     pass
 
 
-def run_program(w2c2, seed_tuple, profile, d, builds, n_funcs=10, vectors=8, memory=True, opts=()):
+def run_program(w2c2, seed_tuple, profile, d, builds, n_funcs=10, vectors=8, memory=True, opts=(), n_globals=4):
     """Generate module #seed, run reference and each C build. builds: list of (tag, cc, cflags, cdefs, run_env)."""
     rnd = env.rng(*seed_tuple)
-    c = gen.build_program_module(rnd, profile, n_funcs=n_funcs, memory=memory)
+    c = gen.build_program_module(rnd, profile, n_funcs=n_funcs, memory=memory, n_globals=n_globals)
     b = c.mod.encode()
     plan = e2e.Plan(c.mod)
     script, steps = program_script(c, plan, rnd, vectors)
